@@ -332,7 +332,7 @@ def parse_fixed_table(table_lines,
     def calc_column_indices(line, headers):
         idx = []
         for h in headers:
-            i = idx[-1] + 1 if idx else 0
+            i = idx[-1] + len(headers[len(idx) - 1]) if idx else 0
             idx.append(line.index(h, i))
         return idx
 
